@@ -62,7 +62,9 @@ POOL = ("pt_temp", "temp_0", "_temp", "x_dim0", "out0_dim0", "out_dim0", "acc_x"
         "x_dim0_0", "store", "_store", "acc", "red", "sum_r0", "_sum_r0")
 RESERVED = ("_pt_temp", "_pt_temp_0", "_pt_data", "_pt_data_0", "_pt_out",
             "_pt_in", "_in0", "_in1", "_r0", "_0", "_1", "_pt_sum_r0",
-            "_pt_subst")
+            "_pt_subst", "_pt_sum_r0_ubound", "_pt_sum_r0_lbound",
+            "_pt_sum_r0_ubound", "_pt_sum_r0_0", "_pt_temp_dim0",
+            "_pt_temp_dim0_0")
 RESERVED_RE = re.compile(r"^(_pt_.*|_[0-9]+|_r[0-9]+|_in[0-9]+)$")
 
 
